@@ -51,7 +51,10 @@ QLt(a, b) == QSub(a, b)[1] < 0
 \* kind scale
 \* ---------------------------------------------------------------------------------------------------------
 ScaleChecked == { <<0, 0>>, <<-3, 0>>, <<2, 1>>, <<0, -2>>, <<-2, -1>> }
-ScaleEmitted == << <<-50, 0>>, <<50, 0>>, <<-30, 10>>, <<30, -10>>, <<-50, -10>>, <<0, 20>>, <<-40, 20>> >>
+ScaleEmitted == << <<-50, 0>>, <<50, 0>>, <<-30, 10>>, <<30, -10>>, <<-50, -10>>, <<0, 20>>, <<-40, 20>>, <<0, -25>>, <<20, -25>>, <<-25, 25>>, <<0, -18>>, <<10, -15>>, <<-10, -21>> >>
+\* dense sweep of the two exponents (one at a time) for the configurations with full covariance matrices: an absolute threshold
+\* anywhere between 1e-18 and 1e18 separates entries of the same matrix for some exponent of the sweep
+ScaleSweep == [i \in 1..61 |-> <<0, i - 31>>] \o [i \in 1..41 |-> <<(5 * i) - 105, 0>>]
 Drop == 2                                   \* deviation: entries with |a| <= 2^-2 are not stored
 
 A32 == MR(<< <<1, 2>>, <<0, 1>>, <<-1, 1>> >>)
@@ -160,7 +163,8 @@ EmitCase ==
       THEN LET u0 == Units(c, <<0, 0>>)  p0 == Post(u0) IN
            PrintT("@@CASE " \o ToJson([kind |-> "scale", A |-> c.A, y |-> c.y, m |-> c.m, n |-> c.n, nf |-> c.nf, pf |-> c.pf, mdl |-> c.mdl,
                                        geo |-> c.geo, sc |-> c.sc, E |-> u0.E, Ce_q |-> u0.Ce, C0_q |-> u0.C0, mu0 |-> u0.mu0,
-                                       mu_q |-> p0.mu, cov_q |-> p0.cov, scales |-> ScaleEmitted]) \o " @@END")
+                                       mu_q |-> p0.mu, cov_q |-> p0.cov,
+                                       scales |-> IF c.nf = "full" /\ c.pf = "full" THEN ScaleEmitted \o ScaleSweep ELSE ScaleEmitted]) \o " @@END")
       ELSE PrintT("@@CASE " \o ToJson([kind |-> "nograd", n |-> c.n, pe |-> c.pe, px |-> c.px, rk |-> c.rk, which |-> c.which, prior |-> c.prior,
                                        mdl |-> c.mdl, y_q |-> NgY(c), mu_q |-> NgMu(c), xstar_q |-> NgXs(c.n), res_q |-> NgRes(c),
                                        lam_lik_q |-> Q(c.pe, 4), lam_post_q |-> QAdd(Q(c.pe, 4), R(c.px))]) \o " @@END")
